@@ -18,6 +18,9 @@ namespace IstioModel.C16
 open IstioModel.Wire
 
 structure JState where
+  /-- `krt.JoinWithMergeCollection` (stream `joinm`): events come from the collection's own cache, no
+      discipline is needed -/
+  merge   : Bool := false
   flagged : Bool := false
   started : Bool := false
   cols    : List (List JObj) := []
@@ -29,7 +32,7 @@ structure JState where
 
 def parseJObj (t : String) : Option JObj :=
   match t.splitOn ";" with
-  | [ns, name, _, _, _, _, _] => some { key := ns ++ "/" ++ name, ns := ns, tok := t }
+  | [ns, name, _, _, _, _, val] => some { key := ns ++ "/" ++ name, ns := ns, tok := t, name := name, val := val }
   | _ => none
 
 def updCol (cols : List (List JObj)) (i : Nat) (f : List JObj → List JObj) : List (List JObj) :=
@@ -41,8 +44,11 @@ def multi (j : JState) : List Key :=
 def addUnsafe (j : JState) (ks : List Key) : JState :=
   { j with unsafeK := j.unsafeK ++ dedupS (ks.filter (fun k => !j.unsafeK.contains k)) }
 
+def jcontents (j : JState) : FinMap := if j.merge then mergeContents j.cols else joinContents j.cols
+def jlookup (j : JState) (ns : String) : FinMap := if j.merge then mergeLookup j.cols ns else joinLookup j.cols ns
+
 def touch (j : JState) (k : Key) (i : Nat) : JState :=
-  if !j.started then j else
+  if !j.started || j.merge then j else
   let l := (AMap.lookup j.touched k).getD []
   if l.contains i then j else
   let j' := { j with touched := AMap.set j.touched k (l ++ [i]) }
@@ -68,8 +74,8 @@ def janswer (j : JState) (u : Bool) (body : JState → String) : String :=
 
 def stepJ (j : JState) (toks : List String) : JState × String :=
   match toks with
-  | "case" :: _ :: _ :: n :: rest =>
-    ({ cols := List.replicate (n.toNat?.getD 2) [], flagged := rest.contains "jr" }, "ok")
+  | "case" :: _ :: stream :: n :: rest =>
+    ({ cols := List.replicate (n.toNat?.getD 2) [], flagged := rest.contains "jr", merge := stream.startsWith "joinm" }, "ok")
   | ["c.set", i, o] =>
     match i.toNat?, parseJObj o with
     | some i, some o =>
@@ -90,40 +96,40 @@ def stepJ (j : JState) (toks : List String) : JState × String :=
     | none => (j, "bad-op")
   | ["start"] =>
     if j.started then (j, "ok")
-    else ({ j with started := true, unsafeK := [], touched := startTouched j.cols }, "ok")
+    else ({ j with started := true, unsafeK := [], touched := if j.merge then [] else startTouched j.cols }, "ok")
   | ["sync"] => (jbarrier j, "ok")
   | ["sub", name, kind] =>
     if !j.started then (j, "ok") else
     let j := if kind == "nostate" then jbarrier j else j
     let j := addUnsafe j (multi j)
     ({ j with nsubs := j.nsubs + 1,
-              subs := AMap.set j.subs name (if kind == "nostate" then joinContents j.cols else []) }, "ok")
+              subs := AMap.set j.subs name (if kind == "nostate" then jcontents j else []) }, "ok")
   | ["list"] =>
     let j := jbarrier j
-    (j, "list " ++ janswer j false (fun j => showMap (restrictMap (fun k => !jInU j k) (joinContents j.cols))))
+    (j, "list " ++ janswer j false (fun j => showMap (restrictMap (fun k => !jInU j k) (jcontents j))))
   | ["ulist"] =>
     let j := jbarrier j
-    (j, "ulist " ++ janswer j true (fun j => showMap (restrictMap (jInU j) (joinContents j.cols))))
+    (j, "ulist " ++ janswer j true (fun j => showMap (restrictMap (jInU j) (jcontents j))))
   | ["get", k] =>
     let j := jbarrier j
     (j, "get " ++ janswer j false (fun j =>
       if jInU j k then "masked" else
-      match joinGet j.cols k with
+      match AMap.lookup (jcontents j) k with
       | none => "none"
       | some v => v))
   | ["lookup", ns] =>
     let j := jbarrier j
-    (j, "lookup " ++ janswer j false (fun j => showMap (restrictMap (fun k => !jInU j k) (joinLookup j.cols ns))))
+    (j, "lookup " ++ janswer j false (fun j => showMap (restrictMap (fun k => !jInU j k) (jlookup j ns))))
   | ["ulookup", ns] =>
     let j := jbarrier j
-    (j, "ulookup " ++ janswer j true (fun j => showMap (restrictMap (jInU j) (joinLookup j.cols ns))))
+    (j, "ulookup " ++ janswer j true (fun j => showMap (restrictMap (jInU j) (jlookup j ns))))
   | "stream" :: name :: evs =>
     let j := jbarrier j
     (j, "stream " ++ janswer j false (fun j =>
       match parseEvents evs, AMap.lookup j.subs name with
       | some es, some m0 =>
         let p := fun k => !jInU j k
-        showVerdict (restrictMap p m0) (restrictStream p es) (restrictMap p (joinContents j.cols))
+        showVerdict (restrictMap p m0) (restrictStream p es) (restrictMap p (jcontents j))
       | none, _ => "reject:malformed-event"
       | _, none => "unknown-subscriber"))
   | "ustream" :: name :: evs =>
@@ -131,7 +137,7 @@ def stepJ (j : JState) (toks : List String) : JState × String :=
     (j, "ustream " ++ janswer j true (fun j =>
       match parseEvents evs, AMap.lookup j.subs name with
       | some es, some m0 =>
-        showVerdict (restrictMap (jInU j) m0) (restrictStream (jInU j) es) (restrictMap (jInU j) (joinContents j.cols))
+        showVerdict (restrictMap (jInU j) m0) (restrictStream (jInU j) es) (restrictMap (jInU j) (jcontents j))
       | none, _ => "reject:malformed-event"
       | _, none => "unknown-subscriber"))
   | _ => (j, "bad-op")
